@@ -719,3 +719,106 @@ def _install_linalg():
 
 
 _install_linalg()
+
+
+# ---------------------------------------------------------------------------------------------------------
+# further stubs used by matrix_functions.py
+
+
+class ColBroadcast:
+    """result of v.unsqueeze(0): only `Q * v.unsqueeze(0)` (scale column j of Q by v[j]) is supported"""
+
+    def __init__(self, v):
+        self.vec = v
+
+
+class SymVec:
+    """small dense vector with concrete length whose entries are set one by one (coefficient arrays)"""
+
+    def __init__(self, n, dtype=None):
+        self.items = [0.0] * int(n)
+        self.dtype = dtype
+
+    def __setitem__(self, i, v):
+        self.items[int(i)] = v
+
+    def __getitem__(self, i):
+        return self.items[int(i)]
+
+
+class _Matmul:
+    allow_tf32 = False
+
+
+class _Cuda:
+    def __init__(self):
+        self.matmul = _Matmul()
+
+
+class _Backends:
+    def __init__(self):
+        self.cuda = _Cuda()
+
+
+def _install_mf_ops():
+    def unsqueeze(self, d):
+        return ColBroadcast(self)
+
+    SymTensor.unsqueeze = unsqueeze
+    old_mul = SymTensor.__mul__
+
+    def mul(self, o):
+        if isinstance(o, ColBroadcast):
+            return SymTensor(uf("scale_columns", ARR, ARR, ARR)(_arr(self), _arr(o.vec)), dtype=self.dtype, shape=self._shape)
+        return old_mul(self, o)
+
+    SymTensor.__mul__ = mul
+
+    def triu(self, diagonal=0):
+        return SymTensor(uf(f"triu_{diagonal}", ARR, ARR)(_arr(self)), dtype=self.dtype, shape=self._shape)
+
+    def tril(self, diagonal=0):
+        return SymTensor(uf(f"tril_{diagonal}", ARR, ARR)(_arr(self)), dtype=self.dtype, shape=self._shape)
+
+    SymTensor.triu, SymTensor.tril = triu, tril
+    SymTensor.__iadd__ = lambda self, o: self.add_(o)
+
+    def tmin(self_, t):
+        m = SymTensor(uf("min_entry", ARR, z3.RealSort())(_arr(t)), dtype=t.dtype, scalar=True)
+        return m
+
+    def minimum(self_, a, b):
+        ta = a if isinstance(a, SymTensor) else SymTensor.real_scalar(a)
+        tb = b if isinstance(b, SymTensor) else SymTensor.real_scalar(b)
+        fa, fb = ta.fn(), tb.fn()
+        if ta.scalar and tb.scalar:
+            return SymTensor(z3.If(fa(0) <= fb(0), fa(0), fb(0)), scalar=True)
+        like = ta if not ta.scalar else tb
+        return SymTensor(lam(lambda i: z3.If(fa(i) <= fb(i), fa(i), fb(i))), dtype=like.dtype, shape=like._shape)
+
+    FakeTorch.min = tmin
+    FakeTorch.minimum = minimum
+    FakeTorch.zeros_like = lambda self_, t: SymTensor(z3.RealVal(0), dtype=t.dtype, scalar=True) if t.scalar else SymTensor(z3.K(z3.IntSort(), z3.RealVal(0)), dtype=t.dtype, shape=t._shape)
+    FakeTorch.diag = lambda self_, t: SymTensor(uf("diag", ARR, ARR)(_arr(t)), dtype=t.dtype, shape=None)
+    FakeTorch.diagonal = lambda self_, t: SymTensor(uf("diagonal", ARR, ARR)(_arr(t)), dtype=t.dtype, shape=(t.size()[0],) if t._shape else None)
+    FakeTorch.trace = lambda self_, t: SymTensor(uf("trace", ARR, z3.RealSort())(_arr(t)), dtype=t.dtype, scalar=True)
+    FakeTorch.add = lambda self_, a, b, alpha=1: a.add(b, alpha=alpha)
+    FakeTorch.addmm = lambda self_, inp, m1, m2, beta=1, alpha=1: (_matmul(m1, m2) * alpha).add(inp, alpha=beta) if alpha != 1 else _matmul(m1, m2).add(inp, alpha=beta)
+    old_zeros = FakeTorch.zeros
+
+    def zeros(self_, size, dtype=None, device=None):
+        if isinstance(size, int):
+            return SymVec(size, dtype)
+        return old_zeros(self_, size, dtype=dtype, device=device)
+
+    FakeTorch.zeros = zeros
+    old_init = FakeTorch.__init__
+
+    def init(self_):
+        old_init(self_)
+        object.__setattr__(self_, "backends", _Backends())
+
+    FakeTorch.__init__ = init
+
+
+_install_mf_ops()
